@@ -86,6 +86,18 @@ def run(ctx):
     ctx.section(method_resources, prog)
     ctx.section(module_pairs, prog)
     ctx.section(refcount, prog)
+    ctx.rule('R-C18c', 'ARRAY-BOUND: every subscript with a non-constant index carries a proof: dominating range test against the constant '
+                       'bound, mask below the bound, loop index below the occupied/returned count, or the per-descriptor slot guard', floor=12)
+    ctx.rule('R-C18c.k', 'kernel/libc writes are bounded by the array they target: read lengths, (v)snprintf sizes, sscanf widths, and the '
+                         'epoll batch capacity is ARRAY_SIZE of the very array passed', floor=8)
+    ctx.rule('R-C18i', 'per-thread module state that owns library-allocated records has a tear-down hook visiting them; thread init and '
+                       'tear-down walk the same registration list', floor=6)
+    ctx.rule('R-C18a.radix', 'timer radix tree tear-down frees exactly the library\'s own nodes: a level is removed with the depth already '
+                             'lowered, the recursion passes depth - 1 and only descends while depth is non-zero', floor=3)
+    ctx.section(radix)
+    ctx.section(array_bounds)
+    ctx.section(kernel_writes)
+    ctx.section(tls_hooks)
 
 
 def index_guard(ctx):
@@ -395,3 +407,316 @@ def refcount(ctx, prog):
                 if e['ev'] == 'store' and lvalue_root(e['lhs']) is not None and lvalue_root(e['lhs'])['name'] == 'iv_active_fd_refcount':
                     ctx.ob('R-C18a.refcnt', '%s:count-under-mutex' % g.name, 'iv_fd_epoll_active_fd_mutex' in held(ls.get((e['_b'], e['_i']))),
                            loc=e['loc'], detail='reference count changed with the mutex held', fn=g.name)
+
+
+# --------------------------------------------------------------------------
+# R-C18c / R-C18c' : bounds of subscripts and of kernel/libc writes
+# --------------------------------------------------------------------------
+
+TYPE_SIZE = {'char': 1, 'unsigned char': 1, 'uint8_t': 1, 'int': 4, 'unsigned int': 4, 'uint32_t': 4, 'uint64_t': 8, 'long': 8}
+BOUND_EXEMPT = {
+    ('iv_fd_poll_notify_fd', 'st->u.poll.pfds[st->u.poll.num_regd_fds]'):
+        'slot count: one slot per registered descriptor with a handler; registration is fatal for fd >= IV_FD_POLL_MAXFD, and distinct registered '
+        'descriptors have distinct numbers, so num_regd_fds < MAXFD (stated assumption, DESIGN R-C18b)',
+    ('iv_fd_poll_notify_fd', 'st->u.poll.fds[st->u.poll.num_regd_fds]'): 'same slot-count argument',
+}
+
+
+def _local_bounds(f):
+    out = {}
+    for e in f.events():
+        if e['ev'] == 'decl' and 'bound' in e:
+            out[e['name']] = (e['bound'], TYPE_SIZE.get(e['type'].split('[')[0].strip(), None))
+    return out
+
+
+def array_bounds(ctx):
+    prog = ctx.prog
+    n = 0
+    for f in sorted(prog.all_funcs(), key=lambda f: f.q):
+        sites = []
+        for e in f.events():
+            if e['ev'] not in ('load', 'store'):
+                continue
+            x = e['e'] if e['ev'] == 'load' else e['lhs']
+            y = x
+            while isinstance(y, dict):
+                k = y.get('k')
+                if k == 'index':
+                    if strip(y['idx']).get('k') != 'int':
+                        sites.append((e, y))
+                    y = strip_load(y['base']) if strip_load(y['base']).get('k') in ('member', 'index') else None
+                elif k == 'member':
+                    y = y['base'] if not y['arrow'] else None
+                elif k == 'cast':
+                    y = y['e']
+                else:
+                    break
+        if not sites:
+            continue
+        hd = holding(f)
+        seen = set()
+        for (e, ix) in sites:
+            key = canon(ix)
+            if key in seen:
+                continue
+            seen.add(key)
+            n += 1
+            inst = '%s:%s' % (f.name, key)
+            idx = strip(ix['idx'])
+            ic = canon(idx)
+            A = hd.get((e['_b'], e['_i']), frozenset())
+            bound = ix.get('bound')
+            proof = None
+            if is_fd_index(idx):
+                proof = 'per-descriptor slot index: INDEX-GUARD (R-C18b)'
+            elif (f.name, key) in BOUND_EXEMPT:
+                ctx.exempt('R-C18c', inst, BOUND_EXEMPT[(f.name, key)])
+                proof = 'exempt: ' + BOUND_EXEMPT[(f.name, key)]
+            elif bound is not None:
+                lo = atoms_imply(A, '>=', ic, '0') or _nonneg_loopvar(f, ic)
+                hi = any(a[1] == ic and a[0] == '<' and a[2].lstrip('-').isdigit() and int(a[2]) <= bound for a in A) or \
+                    any(a[1] == ic and a[0] == '<=' and a[2].lstrip('-').isdigit() and int(a[2]) < bound for a in A)
+                if lo and hi:
+                    proof = 'range test against the constant bound %d dominates the access' % bound
+                else:
+                    m = _masked_def(f, ic, bound)
+                    if m:
+                        proof = m
+            else:
+                # heap / VLA array: loop variable bounded by the element count the array was sized or filled with
+                cnts = [a[2] for a in A if a[1] == ic and a[0] == '<']
+                base = canon(strip_load(ix['base']))
+                for c in cnts:
+                    if c.endswith('num_regd_fds'):
+                        proof = 'loop index below the number of occupied slots (%s)' % c
+                    else:
+                        d = _kernel_count(f, c, base)
+                        if d:
+                            proof = d
+            ctx.ob('R-C18c', inst, proof is not None, loc=e['loc'],
+                   detail=proof or 'no range test, mask, bounded loop or slot guard found for index `%s` (bound %s); facts here: %s'
+                          % (ic, bound, sorted('%s %s %s' % (a[1], a[0], a[2]) for a in A if a[1] == ic)),
+                   path=None if proof else path_to(f, e), fn=f.q)
+    if n < 12:
+        raise AnalysisBroken('variable-index subscripts: %d found, 14 confirmed' % n)
+
+
+def _nonneg_loopvar(f, name):
+    inits = [e for e in f.events() if e['ev'] == 'store' and canon(e['lhs']) == name and e['op'] == '=']
+    steps = [e for e in f.events() if e['ev'] == 'store' and canon(e['lhs']) == name and e['op'] != '=']
+    return bool(inits) and all(strip(e['rhs']).get('k') == 'int' and strip(e['rhs'])['v'] >= 0 for e in inits) and all(e['op'] in ('++', '+=') for e in steps)
+
+
+def _masked_def(f, name, bound):
+    defs = [e for e in f.events() if e['ev'] == 'store' and canon(e['lhs']) == name]
+    if not defs:
+        return None
+    for e in defs:
+        r = strip(e.get('rhs')) if 'rhs' in e else None
+        if not (isinstance(r, dict) and r.get('k') == 'bin' and r['op'] == '&'):
+            return None
+        ms = [strip(x)['v'] for x in (r['l'], r['r']) if strip(x).get('k') == 'int']
+        if not ms or not (0 <= ms[0] < bound):
+            return None
+    return 'index is masked with a constant below the bound %d at every definition' % bound
+
+
+def _kernel_count(f, cntvar, base):
+    """cntvar is the result of the wait call that was given `base` and its element count."""
+    for e in f.events():
+        if e['ev'] == 'store' and canon(e['lhs']) == cntvar and 'rhs' in e:
+            c = strip(e['rhs'])
+            if isinstance(c, dict) and c.get('k') == 'call' and len(c.get('args', [])) >= 3:
+                a1, a2 = c['args'][1], strip(c['args'][2])
+                if canon(a1) == base and _is_array_size(a2, base):
+                    return 'loop index below the count returned by %s for this very array, which was told its element count' % (c.get('callee'))
+    return None
+
+
+def _is_array_size(x, base):
+    if isinstance(x, dict) and x.get('k') == 'bin' and x['op'] == '/':
+        l = strip(x['l'])
+        if isinstance(l, dict) and l.get('k') == 'sizeof':
+            a = l.get('arg', {})
+            return 'expr' in a and canon(a['expr']) == base
+    return False
+
+
+def kernel_writes(ctx):
+    prog = ctx.prog
+    n = 0
+    for f in sorted(prog.all_funcs(), key=lambda f: f.q):
+        lb = _local_bounds(f)
+        for e in f.events():
+            if e['ev'] != 'call':
+                continue
+            nm = e.get('callee')
+            if nm == 'read':
+                dst, ln = strip(e['args'][1]), strip(e['args'][2])
+                if dst.get('k') == 'bin':
+                    continue          # offset form: checked by C17 R-C17d
+                n += 1
+                ok, det = False, ''
+                if dst.get('k') == 'var' and dst['name'] in lb:
+                    bound, esz = lb[dst['name']]
+                    cap = bound * (esz or 1)
+                    vals = _possible_values(f, ln)
+                    ok = vals is not None and all(v <= cap for v in vals)
+                    det = 'length %s <= %d bytes of %s' % (vals, cap, dst['name'])
+                elif dst.get('k') == 'addr' and strip(dst['e']).get('k') == 'var':
+                    t = strip(dst['e']).get('type', '')
+                    sz = TYPE_SIZE.get(t)
+                    ok = sz is not None and ln.get('k') == 'int' and ln['v'] <= sz
+                    det = 'length %s <= sizeof(%s) = %s' % (canon(ln), t, sz)
+                ctx.ob('R-C18c.k', '%s:read(%s)' % (f.name, canon(e['args'][1])), ok, loc=e['loc'], detail=det or 'destination size not established', fn=f.q)
+            elif nm in ('snprintf', 'vsnprintf'):
+                n += 1
+                dst, ln = strip(e['args'][0]), strip(e['args'][1])
+                ok = dst.get('k') == 'var' and dst['name'] in lb and ln.get('k') == 'int' and ln['v'] <= lb[dst['name']][0]
+                ctx.ob('R-C18c.k', '%s:%s(%s)' % (f.name, nm, canon(e['args'][0])), ok, loc=e['loc'],
+                       detail='size argument %s <= array size %s' % (canon(ln), lb.get(dst.get('name'), ('?',))[0]), fn=f.q)
+            elif nm == 'sscanf':
+                n += 1
+                import re as _re
+                fmt = strip(e['args'][1])
+                widths = [int(w) for w in _re.findall(r'%(\d+)s', fmt.get('v', ''))] if fmt.get('k') == 'str' else None
+                unbounded = _re.findall(r'%s', fmt.get('v', '')) if fmt.get('k') == 'str' else ['?']
+                dsts = [strip(a) for a in e['args'][2:] if strip(a).get('k') == 'var' and strip(a)['name'] in lb]
+                ok = widths is not None and not unbounded and len(dsts) == len(widths) and all(w + 1 <= lb[d['name']][0] for w, d in zip(widths, dsts))
+                ctx.ob('R-C18c.k', '%s:sscanf' % f.name, ok, loc=e['loc'], detail='string conversion widths %s fit their destination arrays' % widths, fn=f.q)
+    # the epoll wait is told the element count of the array it is given
+    for t, slots in sorted(prog.method_tables().items()):
+        pf = prog.resolve(*slots['poll'])
+        for e in pf.events():
+            if e['ev'] == 'call' and e.get('callee') and prog.has_fn(e['callee']):
+                callee = prog.fn(e['callee'])
+                if any(is_call(x, ('epoll_wait', 'epoll_pwait2')) for x in callee.events()):
+                    n += 1
+                    base = canon(e['args'][1])
+                    ok = _is_array_size(strip(e['args'][2]), base)
+                    # and the callee passes both through unchanged
+                    for x in callee.events():
+                        if is_call(x, ('epoll_wait', 'epoll_pwait2')):
+                            ok = ok and canon(x['args'][1]) == callee.params[1]['name'] and canon(x['args'][2]) == callee.params[2]['name']
+                    ctx.ob('R-C18c.k', '%s:epoll-batch-size' % pf.name, ok, loc=e['loc'],
+                           detail='the kernel is given ARRAY_SIZE(%s) as the capacity of %s' % (base, base), fn=pf.q)
+    if n < 8:
+        raise AnalysisBroken('sized kernel/libc writes: %d found' % n)
+
+
+def _possible_values(f, x):
+    x = strip(x)
+    if x.get('k') == 'int':
+        return [x['v']]
+    if x.get('k') == 'var':
+        vals = []
+        for e in f.events():
+            if e['ev'] == 'store' and canon(e['lhs']) == x['name'] and 'rhs' in e:
+                r = strip(e['rhs'])
+                if r.get('k') == 'int':
+                    vals.append(r['v'])
+                elif r.get('k') == 'cond' and strip(r['a']).get('k') == 'int' and strip(r['b']).get('k') == 'int':
+                    vals += [strip(r['a'])['v'], strip(r['b'])['v']]
+                else:
+                    return None
+        return vals or None
+    return None
+
+
+def tls_hooks(ctx):
+    """R-C18i: a per-thread module area into which library-allocated records are
+    linked must have a deinit_thread hook that visits that field."""
+    prog = ctx.prog
+    malloced = set()
+    for f in prog.all_funcs():
+        for e in f.events():
+            if e['ev'] in ('store', 'decl'):
+                rhs = e.get('rhs') if e['ev'] == 'store' else e.get('init')
+                if rhs is not None and any(c.get('callee') in ('malloc', 'calloc') for c in walk(rhs) if c.get('k') == 'call'):
+                    lhs = strip(e['lhs']) if e['ev'] == 'store' else e
+                    r = lhs.get('record')
+                    if r:
+                        malloced.add(r)
+    users = {}
+    for key, g in prog.globals.items():
+        if g.get('record') == 'iv_tls_user' and not g.get('ptr') and g.get('init', {}).get('k') == 'init':
+            flds = g['init'].get('fields', {})
+            users[g['name']] = {k: (canon(v) if v is not None else None) for k, v in flds.items()}
+            users[g['name']]['_loc'] = g['loc']
+            users[g['name']]['_unit'] = g.get('unit')
+    if len(users) < 5:
+        raise AnalysisBroken('iv_tls_user instances: %d found, 5 confirmed' % len(users))
+    # area record of each user: the record its init_thread hook casts its argument to
+    for name, u in sorted(users.items()):
+        init = u.get('init_thread')
+        area = None
+        if init and init not in ('NULL', '0') and prog.has_fn(init):
+            fi = prog.fn(init)
+            for e in fi.events():
+                if e['ev'] == 'decl' and e.get('record') and e.get('ptr'):
+                    area = e['record']
+        linked = []
+        if area:
+            for f in prog.all_funcs():
+                for e in f.events():
+                    if is_call(e, ('iv_list_add', 'iv_list_add_tail')):
+                        a0 = strip(e['args'][0])
+                        a1 = strip(e['args'][1])
+                        lm1 = last_member(a1['e']) if a1.get('k') == 'addr' else None
+                        lm0 = last_member(a0['e']) if a0.get('k') == 'addr' else None
+                        if lm1 and lm1[0] == area and lm0 and lm0[0] in malloced:
+                            linked.append((lm1[1], lm0[0], f, e))
+        de = u.get('deinit_thread')
+        has_hook = bool(de) and de not in ('NULL', '0', '?') and prog.has_fn(de)
+        if not linked:
+            ctx.ob('R-C18i', '%s:no-owned-memory' % name, True, loc=u['_loc'],
+                   detail='no library-allocated record is linked into this module\'s per-thread area (%s)' % (area or 'no area record'))
+            continue
+        fld = linked[0][0]
+        ok = has_hook
+        if ok:
+            g = Inliner(prog).inline(prog.fn(de))
+            ok = any(x.get('k') == 'member' and last_member(x) == (area, fld) for e in g.events() for x in walk(e))
+        ctx.ob('R-C18i', '%s:%s.%s' % (name, area, fld), ok, loc=u['_loc'],
+               detail='%s records are linked into %s.%s (%s); the module must have a deinit_thread hook that visits that list: %s'
+                      % (linked[0][1], area, fld, linked[0][2].name, de if has_hook else 'MISSING'))
+    td = prog.fn('iv_tls_thread_deinit')
+    ti = prog.fn('iv_tls_thread_init')
+    def walks(f, hook):
+        return any(e['ev'] == 'call' and last_member(e.get('fnexpr')) == ('iv_tls_user', hook) for e in f.events()) and \
+            any(x.get('k') == 'var' and x['name'] == 'iv_tls_users' for e in f.events() for x in walk(e))
+    ctx.ob('R-C18i', 'iv_tls_thread_deinit:visits-every-user', walks(td, 'deinit_thread') and walks(ti, 'init_thread'), loc=td.loc,
+           detail='thread init and tear-down both walk the list registration appends to (iv_tls_users)', fn=td.q)
+
+
+def radix(ctx):
+    prog = ctx.prog
+    r = prog.fn('iv_timer_radix_tree_remove_level')
+    dec = [e for e in r.events() if e['ev'] == 'store' and last_member(e['lhs']) == ('iv_state', 'rat_depth') and e['op'] in ('--', '-=')]
+    frees = [e for e in r.events() if is_call(e, 'iv_timer_free_ratnode')]
+    if not frees:
+        raise AnalysisBroken('remove_level: subtree release not found')
+    mp = must_pass(r, lambda e: e in dec)
+    ok = bool(dec) and all(mp.get((e['_b'], e['_i'])) for e in frees) and all(last_member(e['args'][1]) == ('iv_state', 'rat_depth') for e in frees)
+    ctx.ob('R-C18a.radix', 'remove_level:depth-lowered-before-subtrees-freed', ok, loc=frees[0]['loc'],
+           detail='the children of the root being removed are at depth rat_depth - 1: rat_depth-- precedes iv_timer_free_ratnode(child, st->rat_depth) '
+                  '(with the old depth the leaves\' slots, which hold user timers, would be freed as nodes)', fn=r.q)
+    f = prog.fn('iv_timer_free_ratnode')
+    hd = holding(f)
+    rec = [e for e in f.events() if is_call(e, 'iv_timer_free_ratnode')]
+    dp = f.params[1]['name']
+    okr = bool(rec)
+    for e in rec:
+        A = hd.get((e['_b'], e['_i']), frozenset())
+        okr = okr and canon(e['args'][1]) == '(%s - 1)' % dp and any(a[0] == '!=' and a[1] == dp and a[2] == '0' for a in A)
+    ctx.ob('R-C18a.radix', 'free_ratnode:descends-only-above-leaves', okr, loc=f.loc,
+           detail='recursion into child[i] only on the edge depth != 0 and with depth - 1', fn=f.q)
+    own = must_pass(f, lambda e: is_call(e, 'free') and canon(e['args'][0]) == f.params[0]['name'])
+    ctx.ob('R-C18a.radix', 'free_ratnode:frees-the-node', bool(own.get((f.exit, 0))), loc=f.loc, detail='the node itself is freed on every path', fn=f.q)
+    d = prog.fn('iv_timer_deinit')
+    lp = [e for e in d.events() if is_call(e, 'iv_timer_radix_tree_remove_level')]
+    hdd = holding(d)
+    A = hdd.get((d.exit, 0), frozenset())
+    ctx.ob('R-C18a.radix', 'timer_deinit:all-levels-removed', bool(lp) and any(a[0] == '==' and a[1].endswith('rat_depth') and a[2] == '0' for a in A), loc=d.loc,
+           detail='levels are removed until rat_depth == 0', fn=d.q)
